@@ -1,6 +1,8 @@
 package main
 
 import (
+	. "verifharness/internal/core"
+
 	"bytes"
 	"crypto"
 	"crypto/aes"
